@@ -83,18 +83,24 @@ def _child(machine, seed, tier, idxs, wfd, t_end, run_timeout):
             break
         w.write(json.dumps({'start': i}) + '\n')
         w.flush()
-        faulthandler.dump_traceback_later(run_timeout, exit=True)
         t0 = time.time()
+        empty = {'violation': None, 'digest': '', 'steps': 0, 'sim_time': 0,
+                 'faults': {}, 'probes': {}, 'seams': {}, 'features': [],
+                 'tape': {}, 'nontrivial': False, 'nevents': 0}
         try:
             rs, case = gen_case(machine, seed, tier, i)
-            res = execute(machine, case, rs)
+            # Every run executes in its own forked process: it starts from
+            # the same pristine (warmed-up) interpreter state whatever ran
+            # before it in this worker, so process-global state of the code
+            # under test cannot leak from one run into the next, and a run
+            # that takes the interpreter down or hangs costs only itself.
+            st, res = run_isolated(lambda: execute(machine, case, rs),
+                                   run_timeout)
+            if st == 'crash':
+                res = dict(empty, error=None, crashed=res)
         except Exception:      # noqa
-            res = {'violation': None, 'error': traceback.format_exc(limit=8),
-                   'digest': '', 'steps': 0, 'sim_time': 0, 'faults': {},
-                   'probes': {}, 'seams': {}, 'features': [], 'tape': {},
-                   'nontrivial': False, 'nevents': 0}
+            res = dict(empty, error=traceback.format_exc(limit=8))
             rs, case = None, None
-        faulthandler.cancel_dump_traceback_later()
         res['index'] = i
         res['wall'] = round(time.time() - t0, 3)
         if res['violation'] or res['error'] or i < 3:
@@ -187,6 +193,9 @@ def run_batch(machine, seed, tier, nruns, budget_s, nproc, run_timeout=120,
                     continue
                 k['finished'].add(msg['index'])
                 k['cur'] = None
+                if msg.get('crashed'):
+                    crashed[msg['index']] = msg['crashed']
+                    continue
                 results.append(msg)
                 if msg.get('violation') and stop_on_violation:
                     nv = sum(1 for r in results if r.get('violation'))
@@ -247,6 +256,17 @@ def run_isolated(fn, timeout=300):
 CRASH_SIG = lambda pid: f'{pid}/crash/interpreter/run'      # noqa
 
 
+def execute_isolated(machine, case, seed, tape=None, strict=False,
+                     timeout=300):
+    """`execute` in a forked child (pristine interpreter state)."""
+    st, out = run_isolated(
+        lambda: execute(machine, case, seed, tape, strict), timeout)
+    if st == 'crash':
+        return {'violation': None, 'error': f'crashed: {out}', 'digest': '',
+                'tape': {}, 'crashed': out}
+    return out
+
+
 # ------------------------------------------------------------------ shrink
 def _same(res, sig):
     return bool(res.get('violation')) and \
@@ -264,7 +284,8 @@ def minimise(machine, case, seed, sig, budget_s=150, log=print):
             return False
         tries[0] += 1
         try:
-            return _same(execute(machine, c, seed, tape, strict), sig)
+            return _same(execute_isolated(machine, c, seed, tape, strict),
+                         sig)
         except Exception:     # noqa
             return False
 
@@ -307,7 +328,7 @@ def minimise(machine, case, seed, sig, budget_s=150, log=print):
                 best, changed = c, True
                 break
     # 4. the tape: replay strictly from the recorded tape, values -> 0
-    res = execute(machine, best, seed)
+    res = execute_isolated(machine, best, seed)
     tape = dict(res.get('tape', {}))
     if _same(res, sig) and ok(best, tape, True):
         for k in list(tape):
@@ -524,17 +545,18 @@ def _check(machine, tier, seed, log=print):
 
     # determinism self-check: first seeds twice (each in its own process),
     # digests must agree
-    def _twice(i):
+    def _once(i):
         rs, case = gen_case(machine, seed, tier, i)
         a = execute(machine, case, rs)
-        b = execute(machine, case, rs)
-        return [a['digest'], b['digest'], a['error'] or b['error']]
+        return [a['digest'], a['error']]
     for i in range(plan.get('det_runs', 3)):
-        st, out = run_isolated(lambda i=i: _twice(i),
-                               plan.get('run_timeout', 180) * 2)
-        if st == 'ok' and (out[0] != out[1] or out[2]):
+        sa, a = run_isolated(lambda i=i: _once(i),
+                             plan.get('run_timeout', 180))
+        sb, b = run_isolated(lambda i=i: _once(i),
+                             plan.get('run_timeout', 180))
+        if sa == 'ok' and sb == 'ok' and (a[0] != b[0] or a[1] or b[1]):
             errors.append(f'nondeterminism or error on run {i}: '
-                          f'{out[0]} vs {out[1]} {out[2] or ""}')
+                          f'{a[0]} vs {b[0]} {a[1] or b[1] or ""}')
     crashed = {}
     results, errs, wall = run_batch(
         machine, seed, tier, nruns, budget, nproc,
@@ -604,7 +626,7 @@ def _check(machine, tier, seed, log=print):
                                       v['signature'],
                                       budget_s=plan.get('shrink_s', 150),
                                       log=log)
-        res = execute(machine, case, r['seed'], tape, strict)
+        res = execute_isolated(machine, case, r['seed'], tape, strict)
         if not _same(res, v['signature']):
             errors.append(f"run {r['index']}: violation did not reproduce "
                           f"in-process after minimisation")
